@@ -35,7 +35,7 @@ pub struct Acc {
   pub probes: BTreeMap<&'static str, u64>,
 }
 impl Acc {
-  pub fn count(&mut self, k: &'static str, n: u64) { *self.counters.entry(k).or_insert(0) += n; }
+  pub fn count(&mut self, k: &'static str, n: u64) { let c = self.counters.entry(k).or_insert(0); *c = c.saturating_add(n); }
   pub fn fault(&mut self, k: &'static str, n: u64) { if n > 0 { *self.faults.entry(k).or_insert(0) += n; } }
   pub fn probe(&mut self, k: &'static str) { *self.probes.entry(k).or_insert(0) += 1; }
   /// adds to a probe; a zero does not create an undeclared probe (declared ones report their zero)
@@ -43,7 +43,7 @@ impl Acc {
   pub fn declare_probe(&mut self, k: &'static str) { self.probes.entry(k).or_insert(0); }
   pub fn declare_fault(&mut self, k: &'static str) { self.faults.entry(k).or_insert(0); }
   fn merge(&mut self, o: &Acc) {
-    for (k, v) in &o.counters { *self.counters.entry(k).or_insert(0) += v; }
+    for (k, v) in &o.counters { let c = self.counters.entry(k).or_insert(0); *c = c.saturating_add(*v); }
     for (k, v) in &o.faults { *self.faults.entry(k).or_insert(0) += v; }
     for (k, v) in &o.probes { *self.probes.entry(k).or_insert(0) += v; }
   }
